@@ -124,6 +124,10 @@ func (g *exGen) someInt() int64 {
 var floatTexts = []string{"0.0", "1.0", "1.5", "2.5", "0.1", "0.25", "3.14", "1e3", "1E3", "1e+3", "2.5e-3", ".5", "5.", "1_0.2_5", "0x1p-2", "0x1.8p1", "0X.8P0", "1e22", "1e-7", "123456789.125", "0.3", "1e308", "4.9e-324", "9007199254740993.0", "0x1p+10", "1.e2", "00.5", "1e0"}
 
 func (g *exGen) floatLit() *Ex {
+	if g.r.Chance(2) {
+		// a float literal outside float64: an error when evaluated, never +Inf
+		return &Ex{K: "lit", Op: "badfloat", Text: g.r.Pick([]string{"1e999", "1e400", "0x1p99999", "123456789e400"})}
+	}
 	t := floatTexts[g.r.Intn(len(floatTexts))]
 	if g.r.Chance(20) {
 		t = strconv.Itoa(g.r.Intn(1000)) + "." + strconv.Itoa(g.r.Intn(1000))
@@ -191,6 +195,11 @@ func quoteSQ(s string) string {
 }
 
 func (g *exGen) strLit(avoid string) *Ex {
+	if avoid == "" && g.r.Chance(2) {
+		// escapes the lexer accepts but Go's unquoting rejects (octal above 255, surrogate halves, beyond U+10FFFF):
+		// an error when evaluated, never an empty or truncated string
+		return &Ex{K: "lit", Op: "badstr", Text: g.r.Pick([]string{`"\400"`, `'\777'`, `"a\ud800"`, `'\udfff'`, `"\U00110000"`, `"\UFFFFFFFF"`})}
+	}
 	s := strVals[g.r.Intn(len(strVals))]
 	var text string
 	switch g.r.Intn(3) {
@@ -585,7 +594,7 @@ func toF(v any) (float64, bool) {
 func RefEval(e *Ex, env *Env) (any, bool) {
 	switch e.K {
 	case "lit":
-		if e.Op == "badint" {
+		if e.Op == "badint" || e.Op == "badfloat" || e.Op == "badstr" {
 			return nil, false
 		}
 		return e.Val, true
